@@ -70,6 +70,12 @@ def build(rng, members: list[dict], *, data_order: str = "shuffle", align: int =
                 nb = nb[:100]
         for p in pre:
             hdrs.append(p)
+        if m.get("typeflag") == b"\0" and nb.endswith(b"/"):
+            # an old-style (NUL typeflag) regular member whose 100-byte name field ends in "/" is a directory to
+            # every V7-compatible reader (CPython's tarfile decides that on the name field, before a GNU long name
+            # is applied): not a regular member in the sense of the property, so it is written with typeflag "0"
+            m = dict(m, typeflag=b"0")
+            members[i] = m
         if kind == "dir":
             hdrs.append(header(nb if nb.endswith(b"/") or len(nb) >= 100 else nb + b"/", 0, b"5", prefix=prefix, mode=0o755))
             expected.append((name.rstrip("/"), "dir", 0, None))
